@@ -34,7 +34,7 @@ Clause(o) ==
          ELSE IF o.got.out # o.ref.out THEN
               (CASE o.case.op = "sum" -> "AddIsConcat"
                  [] o.case.op = "resolve" -> "ResolveOrderFree"
-                 [] o.case.op = "backend" -> "BackendThenUserThenFormat"
+                 [] o.case.op \in {"backend", "backend_default"} -> "BackendThenUserThenFormat"
                  [] OTHER -> "ReusedObjects")
          ELSE IF o.case.op \in {"sum", "resolve"} /\ {<<o.vars[j][1], o.vars[j][2]>> : j \in 1..Len(o.vars)} # VarSet(ref.vars)
               THEN "LaterVarsOverride"
